@@ -112,26 +112,26 @@ func c13Merge(c *Ctx, gd *Module) {
 	}
 	// the encoded value is the one decoded in THIS iteration into a fresh report
 	var target *ssa.Alloc
-	if mi, ok := decode.Call.Args[1].(*ssa.MakeInterface); ok {
+	if mi, ok := argsOf(decode)[1].(*ssa.MakeInterface); ok {
 		target, _ = mi.X.(*ssa.Alloc)
 	}
 	okFresh := target != nil && loop.blocks[target.Block()] && target.Heap
 	r.Check("C13.merge-one-per-object", "handleMerge/each object is decoded into a fresh report value", gd.Pos(decode.Pos()), okFresh,
 		"the Decode target must be allocated inside the loop: encoding/json decodes INTO existing maps, so a reused value keeps keys of earlier reports")
 	if target != nil {
-		ed := describe(encode.Call.Args[1])
+		ed := describe(argsOf(encode)[1])
 		r.Check("C13.merge-one-per-object", "handleMerge/encodes the report decoded from this object", gd.Pos(encode.Pos()), ed == "*alloc:"+allocName(target) || ed == "alloc:"+allocName(target), "got "+ed)
 		r.Check("C13.merge-one-per-object", "handleMerge/encode only after a successful decode", gd.Pos(encode.Pos()), hasFact(factsAt(encode), errNilOf(decode)), "Decode error must not be ignored")
 	}
 	// the decoder reads the object named by Next()
-	dd := describe(decode.Call.Args[0])
+	dd := describe(argsOf(decode)[0])
 	r.Check("C13.merge-one-per-object", "handleMerge/decodes the listed object", gd.Pos(decode.Pos()), strings.Contains(dd, ".Object(") && strings.Contains(dd, "ObjectIterator).Next(") && strings.Contains(dd, ".Upload"), "got "+shortDesc(dd))
 	// listing prefix validated, merge target name
 	it := describe(next.Call.Value)
 	okIt := strings.Contains(it, ".Upload") && strings.Contains(it, ".Objects(")
 	var dateV ssa.Value
 	if cl, ok := strip(next.Call.Value).(*ssa.Call); ok {
-		dateV = cl.Call.Args[len(cl.Call.Args)-1]
+		dateV = argsOf(cl)[len(argsOf(cl))-1]
 	}
 	okDate := false
 	if dateV != nil {
@@ -148,12 +148,12 @@ func c13Merge(c *Ctx, gd *Module) {
 			if !ok || calleeName(&pc.Call) != "time.Parse" {
 				return false
 			}
-			k, _ := constOf(pc.Call.Args[0])
-			return k == "2006-01-02" && pc.Call.Args[1] == dateV && ((bo.Op == token.NEQ) != f.Pol)
+			k, _ := constOf(argsOf(pc)[0])
+			return k == "2006-01-02" && argsOf(pc)[1] == dateV && ((bo.Op == token.NEQ) != f.Pol)
 		})
 	}
 	r.Check("C13.merge-one-per-object", "handleMerge/lists the upload bucket by a validated date", gd.Pos(next.Pos()), okIt && okDate, "s.Upload.Objects(ctx, date) with time.Parse(DateOnly, date) == nil; iterator "+shortDesc(it))
-	ew := describe(encode.Call.Args[0])
+	ew := describe(argsOf(encode)[0])
 	r.Check("C13.merge-one-per-object", "handleMerge/writes <date>.json in the merge bucket", gd.Pos(encode.Pos()), strings.Contains(ew, ".Merge") && strings.Contains(ew, `+ ".json")`) && dateV != nil && strings.Contains(ew, describe(dateV)), "got "+shortDesc(ew))
 }
 
@@ -170,7 +170,7 @@ func c13Reader(c *Ctx, gd *Module) {
 			// Buffer(…, max) with max ≥ 100 KiB · 6 (worst-case JSON re-escaping) and Err() checked after the loop
 			okBuf := false
 			for _, b := range callsIn(rm, "(*bufio.Scanner).Buffer") {
-				if n, isC := intConst(b.Common().Args[2]); isC && n >= 6*100*1024 {
+				if n, isC := intConst(argsOf(b)[2]); isC && n >= 6*100*1024 {
 					okBuf = true
 				}
 			}
@@ -221,7 +221,7 @@ func c13Reader(c *Ctx, gd *Module) {
 	// missing object => 404
 	ok404 := false
 	for _, cs := range callsIn(rm, "godev/internal/content.Error") {
-		if n, isC := intConst(cs.Common().Args[1]); isC && n == 404 {
+		if n, isC := intConst(argsOf(cs)[1]); isC && n == 404 {
 			ok404 = hasFact(factsAt(cs), callResultIs("errors.Is", true, func(a []ssa.Value, _ *ssa.Call) bool {
 				return strings.HasSuffix(describe(a[1]), "storage.ErrObjectNotExist")
 			}))
@@ -288,7 +288,7 @@ func c13Chart(c *Ctx, gd *Module) {
 	}
 	r.Check("C13.every-report-counted", "handleChart/visits every day of [start, end]", gd.Pos(read.Pos()), okLoop, "for date := start; !date.After(end); date = date.AddDate(0, 0, 1)")
 	// the file read is <date>.json
-	fd := describe(read.Call.Args[1])
+	fd := describe(argsOf(read)[1])
 	r.Check("C13.every-report-counted", "handleChart/reads <date>.json", gd.Pos(read.Pos()), strings.HasPrefix(fd, "((time.Time).Format(phi:") && strings.HasSuffix(fd, `"2006-01-02") + ".json")`), "got "+fd)
 	// errors returned unchanged
 	for _, b := range h.Blocks {
@@ -367,7 +367,7 @@ func c13Chart(c *Ctx, gd *Module) {
 	}
 	r.Check("C13.every-report-counted", "charts/NumReports = len(ids)", gd.Pos(ch.Pos()), okNum, "")
 	for _, cs := range callsIn(h, "godev/cmd/worker.charts") {
-		a := cs.Common().Args
+		a := argsOf(cs)
 		r.Check("C13.every-report-counted", "handleChart/charts gets the grouped data and the id list", gd.Pos(cs.Pos()), strings.HasPrefix(describe(a[3]), "godev/cmd/worker.group(") && strings.Contains(describe(a[4]), "phi:"), "got "+describe(a[3])+", "+describe(a[4]))
 	}
 	// partition: Value = float64(len(merged[key set])), ids inserted from d[wk][pk][chart][bucket] keys
@@ -431,7 +431,7 @@ func c13Chart(c *Ctx, gd *Module) {
 	gr := gd.Func("cmd/worker", "group")
 	okID := false
 	for _, cs := range callsIn(gr, "(godev/cmd/worker.data).writeCount") {
-		a := cs.Common().Args
+		a := argsOf(cs)
 		// reportID(r.X) with r the element of the range over the reports parameter
 		idv := strip(a[5])
 		if cv, ok := idv.(*ssa.Convert); ok {
@@ -495,7 +495,7 @@ func c13Determinism(c *Ctx, gd *Module) {
 							// the slice appended to must be sorted before it escapes
 							cl := x.(*ssa.Call)
 							if !appendIsSortedLater(fn, cl) {
-								bad = "append to a slice that is not sorted afterwards: " + describe(cl.Call.Args[0])
+								bad = "append to a slice that is not sorted afterwards: " + describe(argsOf(cl)[0])
 							}
 						case cn == "builtin:len" || cn == "builtin:delete" || cn == "builtin:cap":
 						case strings.HasPrefix(cn, "godev/cmd/worker.") || strings.HasPrefix(cn, "(godev/cmd/worker."):
@@ -520,7 +520,7 @@ func c13Determinism(c *Ctx, gd *Module) {
 	pt := gd.Func("cmd/worker", "data.partition")
 	okSort := false
 	for _, cs := range callsIn(pt, "sort.Slice", "sort.SliceStable", "slices.SortFunc") {
-		okSort = strings.Contains(describe(cs.Common().Args[0]), ".Data")
+		okSort = strings.Contains(describe(argsOf(cs)[0]), ".Data")
 	}
 	r.Check("C13.determinism", "partition/chart data is sorted before it is returned", gd.Pos(pt.Pos()), okSort, "sort.Slice(chart.Data, …)")
 	// every comparator that can reach partition's sort is a total order on distinct strings:
@@ -626,7 +626,7 @@ func appendIsSortedLater(fn *ssa.Function, app *ssa.Call) bool {
 		target = "phi"
 	}
 	for _, cs := range callsIn(fn, "sort.Slice", "sort.SliceStable", "sort.Strings", "slices.SortFunc", "slices.Sort", "sort.Sort") {
-		d := describe(cs.Common().Args[0])
+		d := describe(argsOf(cs)[0])
 		if target != "phi" && strings.Contains(d, strings.TrimPrefix(target, "&")) {
 			return true
 		}
